@@ -13,10 +13,10 @@ open TE TE.Binned TE.Spec.Binned
 theorem sum_mul_sum {α β : Type} (l : List α) (m : List β) (f : α → Q) (g : β → Q) :
     (l.map f).sum * (m.map g).sum = (l.map fun a => (m.map fun b => f a * g b).sum).sum := by
   induction l with
-  | nil => simp; grind
+  | nil => simp
   | cons a l ih =>
-    simp only [List.map_cons, List.sum_cons, ← ih, sum_map_mul_left]
-    grind
+    simp only [List.map_cons, List.sum_cons]
+    rw [← ih, sum_map_mul_left]; grind
 
 theorem sum_map_sub {α : Type} (l : List α) (f g : α → Q) :
     (l.map fun a => f a - g a).sum = (l.map f).sum - (l.map g).sum := by
@@ -93,5 +93,551 @@ theorem trapz_expand (l : List (Q × Q)) (d : List Q) (al be : Q → Q) :
     apply sum_map_congr
     intro q _
     grind
+
+/-- some threshold of `T` lies in `(lo, hi]`. -/
+def sepB (T : List Q) (lo hi : Q) : Bool := T.any fun v => decide (lo < v) && decide (v ≤ hi)
+
+theorem pairW_one (a b pa : Q) (d : List Q) (hd : ∀ u ∈ d, u ≤ b) : pairW a b pa 1 d = 0 := by
+  induction d generalizing pa with
+  | nil => rfl
+  | cons u d ih =>
+    have hu : u ≤ b := hd u List.mem_cons_self
+    simp only [pairW, hu, decide_true, b2q_true]
+    rw [ih _ (fun v hv => hd v (List.mem_cons_of_mem _ hv))]
+    grind
+
+theorem pairW_closed (a b : Q) (seen d : List Q) (hd : d.Pairwise (· ≥ ·))
+    (hsd : ∀ v ∈ seen, ∀ u ∈ d, u ≤ v) (hsb : ∀ v ∈ seen, b < v) :
+    pairW a b (b2q (seen.any fun v => decide (v ≤ a))) 0 d
+      = if d.any (fun u => decide (u ≤ b)) then
+          (b2q (sepB (seen ++ d) b a) + b2q (!sepB (seen ++ d) a b)) / 2
+        else 0 := by
+  induction d generalizing seen with
+  | nil => simp [pairW]
+  | cons u d ih =>
+    rw [List.pairwise_cons] at hd
+    by_cases hub : u ≤ b
+    · have hrest : ∀ v ∈ d, v ≤ b := fun v hv => Rat.le_trans (hd.1 v hv) hub
+      have h1 : (seen.any fun v => decide (v ≤ a)) = sepB (seen ++ u :: d) b a := by
+        rw [Bool.eq_iff_iff]
+        simp only [sepB, List.any_eq_true, Bool.and_eq_true, decide_eq_true_eq, List.mem_append, List.mem_cons]
+        constructor
+        · rintro ⟨v, hv, hva⟩; exact ⟨v, Or.inl hv, hsb v hv, hva⟩
+        · rintro ⟨v, hv, hbv, hva⟩
+          rcases hv with hv | rfl | hv
+          · exact ⟨v, hv, hva⟩
+          · exact absurd hub (Rat.not_le.mpr hbv)
+          · exact absurd (hrest v hv) (Rat.not_le.mpr hbv)
+      have h2 : decide (u ≤ a) = !sepB (seen ++ u :: d) a b := by
+        rw [Bool.eq_iff_iff]
+        simp only [sepB, Bool.not_eq_true', decide_eq_true_eq, List.any_eq_false, Bool.and_eq_true, List.mem_append,
+          List.mem_cons]
+        constructor
+        · intro hua v hv hh
+          rcases hv with hv | rfl | hv
+          · exact absurd hh.2 (Rat.not_le.mpr (hsb v hv))
+          · exact absurd hua (Rat.not_le.mpr hh.1)
+          · exact absurd (Rat.le_trans (hd.1 v hv) hua) (Rat.not_le.mpr hh.1)
+        · intro h
+          apply Decidable.byContradiction
+          intro hna
+          exact h u (Or.inr (Or.inl rfl)) ⟨Rat.not_le.mp hna, hub⟩
+      simp only [pairW, hub, decide_true, b2q_true, List.any_cons, Bool.true_or, if_true]
+      rw [pairW_one _ _ _ _ hrest, h1, h2]
+      grind
+    · have hbu : b < u := Rat.not_le.mp hub
+      have hseen : b2q (decide (u ≤ a)) = b2q ((seen ++ [u]).any fun v => decide (v ≤ a)) := by
+        congr 1
+        rw [Bool.eq_iff_iff]
+        simp only [List.any_eq_true, decide_eq_true_eq, List.mem_append, List.mem_singleton]
+        constructor
+        · intro h; exact ⟨u, Or.inr rfl, h⟩
+        · rintro ⟨v, hv | rfl, hva⟩
+          · exact Rat.le_trans (hsd v hv u List.mem_cons_self) hva
+          · exact hva
+      have ih' := ih (seen ++ [u]) hd.2
+        (by
+          intro v hv w hw
+          rcases List.mem_append.mp hv with hv | hv
+          · exact hsd v hv w (List.mem_cons_of_mem _ hw)
+          · rw [List.mem_singleton.mp hv]; exact hd.1 w hw)
+        (by
+          intro v hv
+          rcases List.mem_append.mp hv with hv | hv
+          · exact hsb v hv
+          · rw [List.mem_singleton.mp hv]; exact hbu)
+      have hub' : decide (u ≤ b) = false := decide_eq_false hub
+      simp only [pairW, hub', b2q_false, List.any_cons, Bool.false_or]
+      rw [hseen, ih', List.append_assoc, List.singleton_append]
+      grind
+
+theorem sepB_iff_floor (t T : List Q) (hT : ∀ v, v ∈ T ↔ v ∈ t) (a b fa fb : Q)
+    (ha : IsFloorOf t a fa) (hb : IsFloorOf t b fb) : sepB T b a = true ↔ fb < fa := by
+  simp only [sepB, List.any_eq_true, Bool.and_eq_true, decide_eq_true_eq]
+  constructor
+  · rintro ⟨v, hv, hbv, hva⟩
+    have h1 : v ≤ fa := ha.greatest v ((hT v).mp hv) hva
+    have h2 := hb.le
+    grind
+  · intro h
+    refine ⟨fa, (hT fa).mpr ha.mem, ?_, ha.le⟩
+    apply Rat.not_le.mp
+    intro hle
+    exact absurd (hb.greatest fa ha.mem hle) (Rat.not_le.mpr h)
+
+/-- the pair weight only sees the two scores through their floors on the grid. -/
+theorem pairW_floor (t : List Q) (hs : t.Pairwise (· ≤ ·)) (a b fa fb : Q)
+    (ha : IsFloorOf t a fa) (hb : IsFloorOf t b fb) :
+    pairW a b 0 0 t.reverse = pairScore fa fb := by
+  have hd : t.reverse.Pairwise (· ≥ ·) := List.pairwise_reverse.mpr hs
+  have h := pairW_closed a b [] t.reverse hd (by simp) (by simp)
+  have hany : (t.reverse.any fun u => decide (u ≤ b)) = true := by
+    simp only [List.any_eq_true, decide_eq_true_eq, List.mem_reverse]
+    exact ⟨fb, hb.mem, hb.le⟩
+  simp only [List.any_nil, b2q_false, hany, if_true, List.nil_append] at h
+  rw [h]
+  have hT : ∀ v, v ∈ t.reverse ↔ v ∈ t := fun v => List.mem_reverse
+  have e1 := sepB_iff_floor t t.reverse hT a b fa fb ha hb
+  have e2 := sepB_iff_floor t t.reverse hT b a fb fa hb ha
+  unfold pairScore
+  by_cases h1 : fb < fa
+  · have h2 : ¬ fa < fb := by grind
+    have s1 : sepB t.reverse b a = true := e1.mpr h1
+    have s2 : sepB t.reverse a b = false := by
+      cases hh : sepB t.reverse a b
+      · rfl
+      · exact absurd (e2.mp hh) h2
+    simp [s1, s2, h1, b2q]; grind
+  · have s1 : sepB t.reverse b a = false := by
+      cases hh : sepB t.reverse b a
+      · rfl
+      · exact absurd (e1.mp hh) h1
+    by_cases h2 : fa < fb
+    · have s2 : sepB t.reverse a b = true := e2.mpr h2
+      have h3 : ¬ fa = fb := by grind
+      simp [s1, s2, h3, b2q]; grind
+    · have s2 : sepB t.reverse a b = false := by
+        cases hh : sepB t.reverse a b
+        · rfl
+        · exact absurd (e2.mp hh) h2
+      have h3 : fa = fb := by grind
+      simp [s1, s2, h3, b2q]; grind
+
+theorem zip_map_pair {α β γ : Type} (l : List α) (f : α → β) (g : α → γ) :
+    (l.map f).zip (l.map g) = l.map fun a => (f a, g a) := by
+  induction l with
+  | nil => rfl
+  | cons a l ih => simp [ih]
+
+theorem trapz_auroc (t xs ys : List Q) (hlen : xs.length = ys.length) :
+    trapz (0 :: (t.map fun u => aurocTp u xs ys).reverse) (0 :: (t.map fun u => aurocFp u xs ys).reverse)
+      = ((xs.zip ys).map fun p => ((xs.zip ys).map fun q => p.2 * (1 - q.2) * pairW p.1 q.1 0 0 t.reverse).sum).sum := by
+  have h := trapz_expand (xs.zip ys) t.reverse (fun _ => 0) (fun _ => 0)
+  have z1 : ((xs.zip ys).map fun p : Q × Q => p.2 * (fun _ : Q => (0 : Q)) p.1).sum = 0 := by
+    have e : (fun p : Q × Q => p.2 * (fun _ : Q => (0 : Q)) p.1) = fun _ => (0 : Q) := by funext p; grind
+    rw [e, sum_map_zero]
+  have z2 : ((xs.zip ys).map fun p : Q × Q => (1 - p.2) * (fun _ : Q => (0 : Q)) p.1).sum = 0 := by
+    have e : (fun p : Q × Q => (1 - p.2) * (fun _ : Q => (0 : Q)) p.1) = fun _ => (0 : Q) := by funext p; grind
+    rw [e, sum_map_zero]
+  rw [z1, z2] at h
+  rw [← List.map_reverse, ← List.map_reverse]
+  simp only [aurocTp_eq, aurocFp_eq _ _ _ hlen]
+  exact h
+
+/-! ### weighted sums over 0/1-labelled samples = sums over positives / negatives -/
+
+theorem sum_pos (s : Samples) (g : Q → Q) (h01 : ∀ p ∈ s, p.2 ≤ 1) :
+    (s.map fun p => ((p.2 : Nat) : Q) * g p.1).sum = ((positives s).map g).sum := by
+  unfold positives
+  induction s with
+  | nil => rfl
+  | cons p s ih =>
+    have hp : p.2 ≤ 1 := h01 p List.mem_cons_self
+    have ih := ih (fun q hq => h01 q (List.mem_cons_of_mem _ hq))
+    simp only [List.map_cons, List.sum_cons, ih, List.filter_cons]
+    rcases (show p.2 = 0 ∨ p.2 = 1 by omega) with h | h
+    · simp [h]; grind
+    · simp [h]
+
+theorem sum_neg (s : Samples) (g : Q → Q) (h01 : ∀ p ∈ s, p.2 ≤ 1) :
+    (s.map fun p => (1 - ((p.2 : Nat) : Q)) * g p.1).sum = ((negatives s).map g).sum := by
+  unfold negatives
+  induction s with
+  | nil => rfl
+  | cons p s ih =>
+    have hp : p.2 ≤ 1 := h01 p List.mem_cons_self
+    have ih := ih (fun q hq => h01 q (List.mem_cons_of_mem _ hq))
+    simp only [List.map_cons, List.sum_cons, ih, List.filter_cons]
+    rcases (show p.2 = 0 ∨ p.2 = 1 by omega) with h | h
+    · simp [h]; grind
+    · simp [h]; grind
+
+theorem positives_map (s : Samples) (f : Q → Q) :
+    positives (s.map fun p => (f p.1, p.2)) = (positives s).map f := by
+  unfold positives
+  induction s with
+  | nil => rfl
+  | cons p s ih => by_cases h : p.2 = 1 <;> simp [h, ih]
+
+theorem negatives_map (s : Samples) (f : Q → Q) :
+    negatives (s.map fun p => (f p.1, p.2)) = (negatives s).map f := by
+  unfold negatives
+  induction s with
+  | nil => rfl
+  | cons p s ih => by_cases h : p.2 = 0 <;> simp [h, ih]
+
+theorem sum_const_one {α : Type} (l : List α) : (l.map fun _ => (1 : Q)).sum = (l.length : Q) := by
+  induction l with
+  | nil => rfl
+  | cons a l ih => simp only [List.map_cons, List.sum_cons, ih, List.length_cons, Rat.natCast_add]; grind
+
+theorem head_le_of_floor (t0 : Q) (t' : List Q) (hs : (t0 :: t').Pairwise (· ≤ ·)) (x v : Q)
+    (h : IsFloorOf (t0 :: t') x v) : t0 ≤ x := by
+  rw [List.pairwise_cons] at hs
+  rcases List.mem_cons.mp h.mem with rfl | hv
+  · exact h.le
+  · exact Rat.le_trans (hs.1 v hv) h.le
+
+theorem getLast_cum (t0 : Q) (t' : List Q) (g : Q → Q) (h : (0 :: ((t0 :: t').map g).reverse) ≠ []) :
+    (0 :: ((t0 :: t').map g).reverse).getLast h = g t0 := by
+  simp [List.getLast_cons]
+
+/-- the binned AUROC of one task on 0/1 labels with every score at or above the first threshold:
+    pair sum of the floored scores over `P·N`, `1/2` when `P·N = 0`. -/
+theorem binnedAurocRow_floor (t : List Q) (s : Samples) (f : Q → Q)
+    (hs : t.Pairwise (· ≤ ·)) (hne : t ≠ []) (h01 : ∀ p ∈ s, p.2 ≤ 1)
+    (hf : ∀ p ∈ s, IsFloorOf t p.1 (f p.1)) :
+    binnedAurocRow t (s.map (·.1)) (s.map fun p => ((p.2 : Nat) : Q))
+      = aurocSpec (s.map fun p => (f p.1, p.2)) := by
+  obtain ⟨t0, t', rfl⟩ : ∃ t0 t', t = t0 :: t' := by
+    cases t with
+    | nil => exact absurd rfl hne
+    | cons a b => exact ⟨a, b, rfl⟩
+  have hlen : (s.map (·.1)).length = (s.map fun p => ((p.2 : Nat) : Q)).length := by simp
+  have hzip : (s.map (·.1)).zip (s.map fun p => ((p.2 : Nat) : Q)) = s.map fun p => (p.1, ((p.2 : Nat) : Q)) :=
+    zip_map_pair s _ _
+  have hlow : ∀ p ∈ s, t0 ≤ p.1 := fun p hp => head_le_of_floor t0 t' hs p.1 (f p.1) (hf p hp)
+  -- the two factors
+  have hP : aurocTp t0 (s.map (·.1)) (s.map fun p => ((p.2 : Nat) : Q)) = ((positives s).length : Q) := by
+    rw [aurocTp_eq, hzip, List.map_map, ← sum_const_one, ← sum_pos s (fun _ => 1) h01]
+    apply sum_map_congr
+    intro p hp
+    simp [Function.comp, hlow p hp, b2q]
+  have hN : aurocFp t0 (s.map (·.1)) (s.map fun p => ((p.2 : Nat) : Q)) = ((negatives s).length : Q) := by
+    rw [aurocFp_eq _ _ _ hlen, hzip, List.map_map, ← sum_const_one, ← sum_neg s (fun _ => 1) h01]
+    apply sum_map_congr
+    intro p hp
+    simp [Function.comp, hlow p hp, b2q]
+  -- the trapezoid sum
+  have hT : trapz (0 :: ((t0 :: t').map fun u => aurocTp u (s.map (·.1)) (s.map fun p => ((p.2 : Nat) : Q))).reverse)
+        (0 :: ((t0 :: t').map fun u => aurocFp u (s.map (·.1)) (s.map fun p => ((p.2 : Nat) : Q))).reverse)
+      = pairSum (s.map fun p => (f p.1, p.2)) := by
+    rw [trapz_auroc _ _ _ hlen, hzip, List.map_map]
+    unfold pairSum
+    rw [positives_map, negatives_map, List.map_map, ← sum_pos s _ h01]
+    apply sum_map_congr
+    intro p hp
+    simp only [Function.comp]
+    rw [List.map_map, List.map_map, ← sum_neg s _ h01, ← sum_map_mul_left]
+    apply sum_map_congr
+    intro q hq
+    simp only [Function.comp]
+    rw [pairW_floor (t0 :: t') hs p.1 q.1 (f p.1) (f q.1) (hf p hp) (hf q hq)]
+    grind
+  unfold binnedAurocRow aurocSpec
+  simp only [getLast_cum, hP, hN, hT, positives_map, negatives_map, List.length_map]
+
+/-! ### AUPRC: the Riemann sum over ascending thresholds as a sum of per-positive weights -/
+
+theorem sum_map_mul_right {α : Type} (l : List α) (c : Q) (f : α → Q) :
+    (l.map fun a => f a * c).sum = (l.map f).sum * c := by
+  induction l with
+  | nil => simp
+  | cons a l ih => simp only [List.map_cons, List.sum_cons, ih]; grind
+
+/-- weight of a positive scoring `a` in the Riemann sum over the ascending thresholds, `g` = precision. -/
+def riemW (g : Q → Q) (a : Q) : List Q → Q
+  | [] => 0
+  | [u] => b2q (decide (u ≤ a)) * g u
+  | u :: v :: r => (b2q (decide (u ≤ a)) - b2q (decide (v ≤ a))) * g u + riemW g a (v :: r)
+
+theorem riemW_zero (g : Q → Q) (a : Q) (t : List Q) (h : ∀ u ∈ t, a < u) : riemW g a t = 0 := by
+  induction t with
+  | nil => rfl
+  | cons u t ih =>
+    have hu : ¬ u ≤ a := Rat.not_le.mpr (h u List.mem_cons_self)
+    have ih := ih (fun v hv => h v (List.mem_cons_of_mem _ hv))
+    cases t with
+    | nil => simp [riemW, hu, b2q]
+    | cons v r =>
+      have hv : ¬ v ≤ a := Rat.not_le.mpr (h v (List.mem_cons_of_mem _ List.mem_cons_self))
+      simp only [riemW, hu, hv, decide_false, b2q_false, ih]; grind
+
+/-- the weight only sees the score through its floor on the grid. -/
+theorem riemW_floor (g : Q → Q) (a fa : Q) (t : List Q) (hs : t.Pairwise (· ≤ ·)) (h : IsFloorOf t a fa) :
+    riemW g a t = g fa := by
+  induction t with
+  | nil => exact absurd h.mem (by simp)
+  | cons u t ih =>
+    rw [List.pairwise_cons] at hs
+    cases t with
+    | nil =>
+      have : fa = u := by simpa using h.mem
+      subst this
+      simp [riemW, h.le, b2q]
+    | cons v r =>
+      by_cases hv : v ≤ a
+      · have huv : u ≤ v := hs.1 v List.mem_cons_self
+        have hu : u ≤ a := Rat.le_trans huv hv
+        have hfl : IsFloorOf (v :: r) a fa := by
+          refine ⟨?_, h.le, fun w hw hwa => h.greatest w (List.mem_cons_of_mem _ hw) hwa⟩
+          rcases List.mem_cons.mp h.mem with rfl | hm
+          · have : v ≤ fa := h.greatest v (List.mem_cons_of_mem _ List.mem_cons_self) hv
+            have : fa = v := by grind
+            rw [this]; exact List.mem_cons_self
+          · exact hm
+        simp only [riemW, hu, hv, decide_true, b2q_true, ih hs.2 hfl]; grind
+      · have hav : a < v := Rat.not_le.mp hv
+        have hrest : ∀ w ∈ v :: r, a < w := by
+          intro w hw
+          rcases List.mem_cons.mp hw with rfl | hw
+          · exact hav
+          · have h2 := List.pairwise_cons.mp hs.2
+            have := h2.1 w hw
+            grind
+        have hfa : fa = u := by
+          rcases List.mem_cons.mp h.mem with rfl | hm
+          · rfl
+          · exact absurd h.le (Rat.not_le.mpr (hrest fa hm))
+        subst hfa
+        simp only [riemW, h.le, hv, decide_true, decide_false, b2q_true, b2q_false, riemW_zero g a _ hrest]; grind
+
+/-- expansion of `-riemannSum(recall ++ [0], precision ++ [1])` with `recall u = (Σ y·[u ≤ x]) / P`. -/
+theorem riemann_expand (l : List (Q × Q)) (P : Q) (g : Q → Q) (t : List Q) :
+    - riemannSum (t.map (fun u => (l.map fun p => p.2 * b2q (decide (u ≤ p.1))).sum / P) ++ [0]) (t.map g ++ [1])
+      = (l.map fun p => p.2 * riemW g p.1 t).sum / P := by
+  induction t with
+  | nil =>
+    simp only [List.map_nil, List.nil_append, riemannSum, riemW]
+    have e : (fun p : Q × Q => p.2 * (0 : Q)) = fun _ => (0 : Q) := by funext p; grind
+    rw [e, sum_map_zero]; grind
+  | cons u t ih =>
+    cases t with
+    | nil =>
+      simp only [List.map_cons, List.map_nil, List.cons_append, List.nil_append, riemannSum, riemW]
+      have e : (l.map fun p : Q × Q => p.2 * (b2q (decide (u ≤ p.1)) * g u)).sum
+          = (l.map fun p : Q × Q => p.2 * b2q (decide (u ≤ p.1))).sum * g u := by
+        rw [← sum_map_mul_right]; apply sum_map_congr; intro p _; grind
+      rw [e]; grind
+    | cons v r =>
+      simp only [List.map_cons, List.cons_append, riemannSum, riemW] at ih ⊢
+      have e : (l.map fun p : Q × Q => p.2 * ((b2q (decide (u ≤ p.1)) - b2q (decide (v ≤ p.1))) * g u + riemW g p.1 (v :: r))).sum
+          = ((l.map fun p : Q × Q => p.2 * b2q (decide (u ≤ p.1))).sum
+              - (l.map fun p : Q × Q => p.2 * b2q (decide (v ≤ p.1))).sum) * g u
+            + (l.map fun p : Q × Q => p.2 * riemW g p.1 (v :: r)).sum := by
+        rw [← sum_map_sub, ← sum_map_mul_right, ← sum_map_add]
+        apply sum_map_congr; intro p _; grind
+      rw [e]
+      grind
+
+/-! ### binned AUPRC of one curve -/
+
+theorem natCast_add_eq_zero (a b : Nat) (h : ((a : Nat) : Q) + ((b : Nat) : Q) = 0) : a = 0 ∧ b = 0 := by
+  have : ((a + b : Nat) : Q) = ((0 : Nat) : Q) := by rw [Rat.natCast_add]; simpa using h
+  have := Rat.natCast_inj.mp this
+  omega
+
+theorem natCast_ne_zero (a : Nat) (h : 1 ≤ a) : ((a : Nat) : Q) ≠ 0 := by
+  intro h0
+  have : ((a : Nat) : Q) = ((0 : Nat) : Q) := by simpa using h0
+  have := Rat.natCast_inj.mp this
+  omega
+
+/-- the precision entry the code reports at threshold `u` (`1` when nothing is predicted positive). -/
+def precG (s : Samples) (u : Q) : Q :=
+  if (tpAt s u : Q) + (fpAt s u : Q) = 0 then 1 else (tpAt s u : Q) / ((tpAt s u : Q) + (fpAt s u : Q))
+
+theorem allVals_vals (l : List Q) : allVals (l.map XQ.val) = some l := by
+  induction l with
+  | nil => rfl
+  | cons a l ih => simp [allVals, ih]
+
+theorem curve_fst_vals (s : Samples) (t : List Q) :
+    (curve s t).1 = (t.map (precG s) ++ [1]).map XQ.val := by
+  unfold curve
+  simp only [List.map_append, List.map_map, List.map_cons, List.map_nil]
+  congr 1
+  apply List.map_congr_left
+  intro u _
+  simp only [Function.comp]
+  unfold precisionAt xdiv precG
+  by_cases h : (tpAt s u : Q) + (fpAt s u : Q) = 0
+  · have h1 := (natCast_add_eq_zero _ _ h).1
+    have h2 := (natCast_add_eq_zero _ _ h).2
+    have h3 : (0 : Q) + 0 = 0 := by grind
+    simp [h1, h2, h3]
+  · simp [h]
+
+theorem recall_entry (s : Samples) (u : Q) (hP : ((positives s).length : Q) ≠ 0) :
+    recallAt s u = .val ((tpAt s u : Q) / ((positives s).length : Q)) := by
+  have e : ((positives s).length : Q) = (tpAt s u : Q) + (fnAt s u : Q) := by
+    rw [← Rat.natCast_add, ← pos_split s u]; unfold positives; simp [List.countP_eq_length_filter]
+  rw [e] at hP
+  unfold recallAt xdiv
+  simp [hP, e]
+
+theorem recall_nan (s : Samples) (u : Q) (hP : (positives s).length = 0) : recallAt s u = .nan := by
+  have e : (positives s).length = tpAt s u + fnAt s u := by
+    rw [← pos_split s u]; unfold positives; simp [List.countP_eq_length_filter]
+  have h1 : tpAt s u = 0 := by omega
+  have h2 : fnAt s u = 0 := by omega
+  have h3 : (0 : Q) + 0 = 0 := by grind
+  unfold recallAt xdiv; simp [h1, h2, h3]
+
+theorem allVals_append_none (a : List XQ) (b : List XQ) (h : allVals a = none) : allVals (a ++ b) = none := by
+  induction a with
+  | nil => simp [allVals] at h
+  | cons x a ih =>
+    cases x with
+    | val q =>
+      simp only [allVals, Option.map_eq_none_iff] at h
+      simp [allVals, ih h]
+    | nan => rfl
+    | pinf => rfl
+    | ninf => rfl
+
+theorem tpAt_eq_sum (s : Samples) (u : Q) (h01 : ∀ p ∈ s, p.2 ≤ 1) :
+    ((tpAt s u : Nat) : Q) = (s.map fun p => ((p.2 : Nat) : Q) * b2q (decide (u ≤ p.1))).sum := by
+  unfold tpAt
+  rw [cast_countP_eq_sum]
+  apply sum_map_congr
+  intro p hp
+  have := h01 p hp
+  rcases (show p.2 = 0 ∨ p.2 = 1 by omega) with h | h <;> simp [h, b2q] <;> grind
+
+/-- counting at a grid value is the same on the floored scores. -/
+theorem tpAt_floored (t : List Q) (s : Samples) (f : Q → Q) (hf : ∀ p ∈ s, IsFloorOf t p.1 (f p.1))
+    (u : Q) (hu : u ∈ t) : tpAt (s.map fun p => (f p.1, p.2)) u = tpAt s u := by
+  unfold tpAt
+  rw [List.countP_map]
+  apply List.countP_congr
+  intro p hp
+  have hfl := hf p hp
+  have : (u ≤ f p.1) ↔ (u ≤ p.1) := ⟨fun h => Rat.le_trans h hfl.le, fun h => hfl.greatest u hu h⟩
+  simp [Function.comp, this]
+
+theorem fpAt_floored (t : List Q) (s : Samples) (f : Q → Q) (hf : ∀ p ∈ s, IsFloorOf t p.1 (f p.1))
+    (u : Q) (hu : u ∈ t) : fpAt (s.map fun p => (f p.1, p.2)) u = fpAt s u := by
+  unfold fpAt
+  rw [List.countP_map]
+  apply List.countP_congr
+  intro p hp
+  have hfl := hf p hp
+  have : (u ≤ f p.1) ↔ (u ≤ p.1) := ⟨fun h => Rat.le_trans h hfl.le, fun h => hfl.greatest u hu h⟩
+  simp [Function.comp, this]
+
+theorem auprcOfCurve_floor (t : List Q) (s : Samples) (f : Q → Q)
+    (hs : t.Pairwise (· ≤ ·)) (h01 : ∀ p ∈ s, p.2 ≤ 1)
+    (hf : ∀ p ∈ s, IsFloorOf t p.1 (f p.1)) (hP : (positives s).length ≠ 0) :
+    auprcOfCurve (curve s t) = auprcSpec (s.map fun p => (f p.1, p.2)) := by
+  have hPq : ((positives s).length : Q) ≠ 0 := natCast_ne_zero _ (by omega)
+  have hr : allVals (curve s t).2 = some (t.map (fun u => (s.map fun p => ((p.2 : Nat) : Q) * b2q (decide (u ≤ p.1))).sum
+      / ((positives s).length : Q)) ++ [0]) := by
+    have : (curve s t).2 = (t.map (fun u => (s.map fun p : Q × Nat => ((p.2 : Nat) : Q) * b2q (decide (u ≤ p.1))).sum
+        / ((positives s).length : Q)) ++ [0]).map XQ.val := by
+      unfold curve
+      simp only [List.map_append, List.map_map, List.map_cons, List.map_nil]
+      congr 1
+      apply List.map_congr_left
+      intro u _
+      simp only [Function.comp, recall_entry s u hPq, tpAt_eq_sum s u h01]
+    rw [this, allVals_vals]
+  have hp : allVals (curve s t).1 = some (t.map (precG s) ++ [1]) := by
+    rw [curve_fst_vals, allVals_vals]
+  unfold auprcOfCurve
+  simp only [hr, hp]
+  have hexp := riemann_expand (s.map fun p => (p.1, ((p.2 : Nat) : Q))) ((positives s).length : Q) (precG s) t
+  simp only [List.map_map, Function.comp_def] at hexp
+  rw [hexp]
+  unfold auprcSpec apSum
+  simp only [positives_map, List.length_map, hPq, if_false, List.map_map]
+  congr 1
+  rw [← sum_pos s _ h01]
+  apply sum_map_congr
+  intro p hp
+  have hfl := hf p hp
+  rcases (show p.2 = 0 ∨ p.2 = 1 by have := h01 p hp; omega) with h0 | h1
+  · simp [h0]
+  · simp only [Function.comp, riemW_floor (precG s) p.1 (f p.1) t hs hfl,
+      tpAt_floored t s f hf (f p.1) hfl.mem, fpAt_floored t s f hf (f p.1) hfl.mem]
+    have hpos : 1 ≤ tpAt s (f p.1) := by
+      unfold tpAt
+      apply List.countP_pos_iff.mpr
+      exact ⟨p, hp, by simp [h1, hfl.le]⟩
+    have hne : ((tpAt s (f p.1) : Nat) : Q) + ((fpAt s (f p.1) : Nat) : Q) ≠ 0 := by
+      intro h
+      have := (natCast_add_eq_zero _ _ h).1
+      omega
+    unfold precG
+    simp [hne]
+
+theorem auprcOfCurve_no_positives (t : List Q) (s : Samples) (hne : t ≠ []) (hP : (positives s).length = 0) :
+    auprcOfCurve (curve s t) = 0 := by
+  obtain ⟨u, t', rfl⟩ : ∃ u t', t = u :: t' := by
+    cases t with
+    | nil => exact absurd rfl hne
+    | cons a b => exact ⟨a, b, rfl⟩
+  have : allVals (curve s (u :: t')).2 = none := by
+    unfold curve
+    simp only [List.map_cons, List.cons_append, recall_nan s u hP]
+    rfl
+  unfold auprcOfCurve
+  simp [this]
+
+/-! ### the executable floor -/
+
+theorem maxOf_spec (l : List Q) (m : Q) (h : maxOf l = some m) : m ∈ l ∧ ∀ u ∈ l, u ≤ m := by
+  induction l generalizing m with
+  | nil => simp [maxOf] at h
+  | cons a l ih =>
+    unfold maxOf at h
+    cases hm : maxOf l with
+    | none =>
+      rw [hm] at h
+      have hl : l = [] := by
+        cases l with
+        | nil => rfl
+        | cons b l => unfold maxOf at hm; cases h2 : maxOf l <;> simp [h2] at hm
+      simp only [Option.some.injEq] at h
+      subst h; subst hl
+      simp
+    | some m' =>
+      rw [hm] at h
+      have ih := ih m' hm
+      simp only [Option.some.injEq] at h
+      by_cases hlt : m' < a
+      · simp only [hlt, if_true] at h
+        subst h
+        refine ⟨List.mem_cons_self, ?_⟩
+        intro u hu
+        rcases List.mem_cons.mp hu with rfl | hu
+        · grind
+        · have := ih.2 u hu; grind
+      · simp only [hlt, if_false] at h
+        subst h
+        refine ⟨List.mem_cons_of_mem _ ih.1, ?_⟩
+        intro u hu
+        rcases List.mem_cons.mp hu with rfl | hu
+        · grind
+        · exact ih.2 u hu
+
+/-- `floorTo?` returns the largest threshold `≤ x`. -/
+theorem floorTo?_isFloor (t : List Q) (x v : Q) (h : floorTo? t x = some v) : IsFloorOf t x v := by
+  unfold floorTo? at h
+  have := maxOf_spec _ v h
+  have hm := List.mem_filter.mp this.1
+  refine ⟨hm.1, by simpa using hm.2, ?_⟩
+  intro u hu hux
+  exact this.2 u (List.mem_filter.mpr ⟨hu, by simpa using hux⟩)
 
 end TE.BinnedL
